@@ -240,6 +240,7 @@ fn render_fn(ctx: &mut Ctx, unit: &Unit, fs: &FnSpec, found: &FoundFn, in_trait_
             FnArg::Typed(pt) => {
                 pt.attrs.clear();
                 n.visit_type_mut(&mut pt.ty);
+                if let Type::Reference(r) = &*pt.ty { if r.mutability.is_some() && matches!(&*r.elem, Type::Slice(_)) { if let Pat::Ident(pi) = &*pt.pat { n.mut_slices.push(pi.ident.to_string()); } } }
                 let mut name = ts(&pt.pat);
                 if let Pat::Ident(pi) = &mut *pt.pat {
                     if pi.mutability.is_some() && pi.by_ref.is_none() {
